@@ -163,3 +163,10 @@ Definition check_config (a : ds_args) (obs_sep obs_fmt : list (name * option str
       && forallb (fun e => pat_matches (pat_lookup (fst e) (c_fmt c)) (snd e)) obs_fmt
       && (length (c_sep c) =? length obs_sep) && (length (c_fmt c) =? length obs_fmt)
   end.
+
+(* Python's own cell.split(sep) / piece.strip() against the model's primitives, on every delimiter-joined cell *)
+Definition check_split (s sep : str) (stripped_pieces : list str) : bool :=
+  match py_split s sep with
+  | Some ps => list_eqb str_eqb (map py_strip ps) stripped_pieces
+  | None => false
+  end.
